@@ -285,6 +285,10 @@ func (c *CollectionPage) GobDecode(data []byte) error {
 
 // CollectionNew initializes a new CollectionPage
 func CollectionPageNew(parent CollectionInterface) *CollectionPage {
+	if parent == nil || IsNil(parent) {
+		// a page of nothing
+		return &CollectionPage{Type: CollectionPageType}
+	}
 	p := CollectionPage{
 		PartOf: parent.GetLink(),
 	}
